@@ -356,17 +356,12 @@ def model_value(m, v):
     if isinstance(v, (SymBytes, ShByteArray)):
         return bytes(model_value(m, b) for b in v.items)
     if isinstance(v, SymFloat):
+        import struct as _st
         r = m.eval(v.t, model_completion=True)
-        try:
-            if z3.is_fp_value(r) or True:
-                s = str(r)
-                if "NaN" in s:
-                    return float("nan")
-                if "oo" in s:
-                    return float("-inf") if s.strip().startswith("-") else float("inf")
-                return float(r.as_string()) if hasattr(r, "as_string") else float(s)
-        except Exception:
-            return None
+        if z3.is_true(z3.simplify(z3.fpIsNaN(r))):
+            return float("nan")
+        bits = z3.simplify(z3.fpToIEEEBV(r))
+        return _st.unpack(">d", _st.pack(">Q", bits.as_long()))[0]
     if isinstance(v, dict):
         return {k: model_value(m, x) for k, x in dict.items(v) if not _is_private(k)}
     if isinstance(v, (list, tuple)):
